@@ -249,6 +249,9 @@ def shutdown_oracle(ctx, runs):
 
 def run(ctx):
     run_probes(ctx)
+    wexe = ctx.build_cpp("c15_harness", "c15.cpp")
+    if wexe:
+        q15.run_wakeups(ctx, wexe)
     runs = q15.run_stress(ctx, prefix="c16", per_config=(12 if ctx.tier == "thorough" else 1), closer_only=True)
     shutdown_oracle(ctx, runs)
     gen = (COQ / "gen" / "ConstsQueue.v").read_text()
